@@ -63,6 +63,7 @@ class RunCtx(object):
         self.extractors = {}        # class -> fn (what the run registered)
         self.extractor_raises = set()
         self.async_mode = False
+        self.aborted = False
         self.trace = []             # cheap event log for the digest
         self.info = {}
 
@@ -260,7 +261,8 @@ def run_program(rc, prog, setup=None, teardown=None):
     """Execute ``prog`` in its world.  Returns the Interp."""
     cfg = rc.cfg
     world = prog["world"]
-    sstream = rc.dec.stream("sched")
+    sstream = rc.dec.stream(cfg.get("sched_stream", "sched"))
+    rc.sched_stream = sstream
     sched = Sched(sstream,
                   p_switch=cfg.get("p_switch", 0.0) if world == "threads" else 0.0,
                   gran=cfg.get("gran", "op"),
